@@ -252,9 +252,12 @@ CLAIMS["C07"] = {
             "every child, selects the head by a strict comparison among valid children, records its direction, and on a "
             "direction change re-positions every non-current child relative to the current key; the two-level iterator steps, "
             "re-seeks and skips empty blocks in the direction of the operation and its forward and backward halves are mirror "
-            "images; iterators hide entries newer than their sequence (shared with C06) and pin the memtables and version they "
-            "read (shared with C13). The position after a concrete call sequence, agreement of forward and backward traversals "
-            "on concrete data, the block-level search and the direction switch of db_iter.c are NOT decided.",
+            "images; the user-level iterator (db_iter.c) treats each entry of the internal stream as a sorted map over (user key, "
+            "newest visible version) dictates - forward and backward scan per entry kind, next/prev incl. the direction switch, "
+            "seek/first/last, key/value by direction - and compares user keys with the user comparator; iterators hide entries "
+            "newer than their sequence (shared with C06) and pin the memtables and version they read (shared with C13). The "
+            "position after a concrete call sequence, agreement of forward and backward traversals on concrete data and the "
+            "block-level search are NOT decided.",
     "design_ref": "DESIGN.md 12.9",
     "technique": "static analysis: call-sequence enumeration on the clang CFG under assumed predicate valuations (composition "
                  "tables), mirror-symmetry sibling agreement, guard dominance",
